@@ -14,6 +14,10 @@ sample = base.dispatch_sample
 def make(family, rng, tier):
     if family == "ex":
         return exgen.gen(rng, PROP, tier)
+    if family == "chaos":
+        scn = sysgen.gen_chaos(rng, tier)
+        scn["oracles"] = ["model"]
+        return scn
     if family == "sysmodel":
         # real schedulers, exact model in lock-step inside run_simulator (off-grid sizes keep it out of the float band)
         scn = sysgen.gen_preempt(rng, tier) if rng.random() < 0.3 else sysgen.gen(rng, None, PROP, tier, offgrid=True)
@@ -26,4 +30,5 @@ def make(family, rng, tier):
 
 def plan(tier):
     q = tier == "quick"
-    return [("ex", 4000 if q else 60000), ("sys", 2000 if q else 40000), ("sysmodel", 1500 if q else 30000)]
+    return [("ex", 4000 if q else 60000), ("sys", 2000 if q else 40000), ("sysmodel", 1500 if q else 30000),
+            ("chaos", 1000 if q else 20000)]
